@@ -505,6 +505,7 @@ package agent
 //@   nopanic
 //@   ensures result == rmapval(this, $1)
 //@ assume func (reflect.Value).Interface
+//@   nopanic
 //@   ensures result == riface(this)
 //@ lemma[C07] cnt_pos uses cnt_unfold, cnt_nonneg measure ite(n > 0, n, 0): forall s Seq, n Int, i Int, x U :: { cnt(s, 0, n, x), s[i] } 0 <= i && i < n && s[i] == x ==> cnt(s, 0, n, x) >= 1
 //@ lemma[C07] cnt_none uses cnt_unfold measure ite(n > 0, n, 0): forall s Seq, n Int, x U :: { cnt(s, 0, n, x) } (forall j :: { s[j] } 0 <= j && j < n ==> s[j] != x) ==> cnt(s, 0, n, x) == 0
